@@ -204,3 +204,17 @@ func (e *Engine) axiomFacts() ([]axFact, error) {
 	}
 	return all, err
 }
+
+// calleeContract selects the contract used at call sites of fn inside the unit being verified.
+func (ex *Exec) calleeContract(fn *ssa.Function) *FuncContract {
+	if ex.contract != nil && ex.contract.Uses != nil {
+		if a, ok := ex.contract.Uses[fn.Name()]; ok {
+			for _, c := range ex.eng.contracts[fn] {
+				if c.Aspect == a {
+					return c
+				}
+			}
+		}
+	}
+	return ex.eng.contractFor(fn, ex.aspect)
+}
